@@ -304,9 +304,13 @@ func propC08(c *Ctx) {
 			o2.Paths++
 			for _, i := range p.Find(func(ev *Event) bool { return ev.Kind == EvCall && isCall(ev, "MsgServer).safeDepositToken") }) {
 				o2.Sites++
-				a := p.Events[i].Call.Args
-				if dd := decodedFrom(a[2]); dd == nil || dd.Key() != "req.To" || !coinsAre(a[3], "req.Amount") {
-					o2.Fail(c.evPos(&p.Events[i]), "credits "+trunc(a[3].Key(), 100)+" to "+trunc(a[2].Key(), 100), c.Dump(p, i))
+				a := callRoles(&p.Events[i], depRoles)
+				if a["toAddr"] == nil || a["coins"] == nil {
+					o2.Fail(c.evPos(&p.Events[i]), "recipient / coins arguments of safeDepositToken not found by type", c.Dump(p, i))
+					continue
+				}
+				if dd := decodedFrom(a["toAddr"]); dd == nil || dd.Key() != "req.To" || !coinsAre(a["coins"], "req.Amount") {
+					o2.Fail(c.evPos(&p.Events[i]), "credits "+trunc(a["coins"].Key(), 100)+" to "+trunc(a["toAddr"].Key(), 100), c.Dump(p, i))
 				}
 			}
 		}
@@ -314,7 +318,7 @@ func propC08(c *Ctx) {
 			o2.Fail(c.W.Pos(ftd.Pos()), "no safeDepositToken call", nil)
 		}
 		sd := c.Method(childKeeper, "MsgServer", "safeDepositToken")
-		for _, p := range c.Paths(sd, PO{Params: []string{"ms", "ctx", "toAddr", "coins"}}) {
+		for _, p := range c.Paths(sd, PO{Params: []string{"ms"}, Roles: depRoles}) {
 			for _, i := range p.Find(func(ev *Event) bool { return ev.Kind == EvCall && isCall(ev, "BankKeeper).MintCoins") }) {
 				o2.Sites++
 				if p.Events[i].Call.Args[3].Key() != "coins" {
